@@ -25,14 +25,15 @@ def jobs_for(tier):
     L = 4 if quick else 5
     dev = 2 if quick else 3
     jobs = []
-    for api in ("NR", "R"):
+    for api in ("NR", "R", "C99"):
         ops, scs = scanners(api)
         for name, rules in scs:
             for array in (0, 1):
                 for lineno in (0, 1):
                     opts = (["reentrant"] if api == "R" else []) + (["array"] if array else []) + (["yylineno"] if lineno else [])
                     knobs = {"VF_OPMASK": H.opmask(*ops), "VF_BUDGET_DEFAULT": dev, "VF_BUDGET_TOTAL": dev,
-                             "VF_BUFSIZES": "0,1,2,3,4" if quick else "0,1,2,3,4,5,8", "VF_UNPUT_CHARS": '"ab\\n"'}
+                             "VF_BUFSIZES": "0,1,2,3,4" if quick else "0,1,2,3,4,5,8", "VF_UNPUT_CHARS": '"ab\\n"',
+                             "VF_OPS_PER_ACTION": 2}
                     if lineno:
                         knobs["VF_CHECK_LINENO"] = 1
                     g = H.Group([("S", True)], rules, "S", b"ab\n", L,
